@@ -218,6 +218,8 @@ Spec == Init /\ [][Next]_vars
 
 \* C07: the backend thread terminates only after every statement committed before the stop request has been written
 NoLoss == ~st.lost
+\* C20 / C03: the context of an exited thread is reclaimed only when everything the thread committed has been read (and written)
+NoReclaimLoss == st.yremoved => st.consumedY = Len(st.yq)
 \* C06: flush_log() returns only when the caller's earlier statements are written, and ordered before the caller
 FlushOK == ~st.flushbad
 \* C17: remove_logger_blocking() returns only after the removal has completed (logger erased, sink destroyed, ordered before the caller)
